@@ -170,6 +170,24 @@ pub mod verif {
             TimeZone::new(tr, ty, vec![], rule).map(Zone).map_err(|_| ())
         }
 
+        /// Fixed-arity constructors (no growth loops): zero, one or two transitions over two types.
+        pub fn from_parts_n(
+            n: usize,
+            t: [(i64, usize); 2],
+            types: [(i32, bool); 2],
+        ) -> Result<Zone, ()> {
+            let ty = vec![
+                LocalTimeType::new(types[0].0, types[0].1, None).map_err(|_| ())?,
+                LocalTimeType::new(types[1].0, types[1].1, None).map_err(|_| ())?,
+            ];
+            let tr = match n {
+                0 => vec![],
+                1 => vec![Transition::new(t[0].0, t[0].1)],
+                _ => vec![Transition::new(t[0].0, t[0].1), Transition::new(t[1].0, t[1].1)],
+            };
+            TimeZone::new(tr, ty, vec![], None).map(Zone).map_err(|_| ())
+        }
+
         pub fn offset_at(&self, unix_time: i64) -> Result<i32, ()> {
             self.0.find_local_time_type(unix_time).map(|t| t.offset()).map_err(|_| ())
         }
